@@ -56,10 +56,10 @@ func TestVerifC16Publisher(t *testing.T) {
 		defer pm.Close()
 
 		var (
-			hist       []string
-			cur        *vcAttachedPub   // the model's single source slot
-			pubs       []*vcAttachedPub // every publisher ever attached (stale ones keep writing)
-			readers    []*c16Reader
+			hist         []string
+			cur          *vcAttachedPub   // the model's single source slot
+			pubs         []*vcAttachedPub // every publisher ever attached (stale ones keep writing)
+			readers      []*c16Reader
 			staleWrite   bool
 			replaced     bool
 			incompatible bool
